@@ -263,6 +263,11 @@ def generate_and_run(rng, profile, max_client_ops=None):
             orig = case["script"]
             case["script"] = (orig[:used] + [False] * max(0, used - len(orig))) + [True] * 900
             runner.env.script = [True] * 900
+            if rng.random() < 0.25:
+                # ... and the session is saved and restored into a process whose backend refuses
+                do(["save"])
+                do(["load", [True] * 5 if rng.random() < 0.7 else [rng.random() < 0.7 for _ in range(5)]])
+                settle()
             for _ in range(rng.randint(2, 5)):
                 if rng.random() < 0.8:
                     do(rng.choice([["previous"], ["next"], ["atf"], ["play", None], ["seek", 6000],
